@@ -117,3 +117,10 @@ def restriction(vc):
     vc.ensure('C06/superposition/post/successive-injections-add-the-sum', Implies(inq, eq(g1.fields['data'].at((i, j)), d0.at((i, j)) + s1.value.at((i, j)) + s2.value.at((i, j)))))
     vc.ensure('C06/superposition/post/order-independent', Implies(inq, And(eq(g1.fields['data'].at((i, j)), g2.fields['data'].at((i, j))),
                                                                           eq(s1.value.at((i, j)), r1.value.at((i, j))), eq(s2.value.at((i, j)), r2.value.at((i, j))))))
+
+
+# "the frame's axes ... are unchanged by an injection" also covers injection through a cadence, which shifts every frame's time axis for the
+# duration of the call: C16's Cadence.add_signal contract (time axes restored exactly, on normal return and when the injection raises) is
+# discharged again here
+from . import c16 as _C16
+contract('C06', 'cadence_injection_restores_every_time_axis', functions=['setigen.cadence:Cadence.add_signal'])(_C16.cadence_add_signal)
